@@ -28,7 +28,7 @@ Driver for C19.  Strings travel as code points joined by `.` (`_` = empty string
       -> xml=<..> frag=<..> forbidden=<0|1> parsed=<0|1>
   USER init=<str> avail=<str;..> eff=<str> raises=<0|1 per comparison, e.g. 001>   (phase 5b: _locale_call with a raising primitive)
       -> model=<ok|ERR:ValueError|ERR:localeError|HANG>#<lock>#<lc> nofinally=<..>#<lock>#<lc> spec=<lock>#<lc>
-  XMLD defuse=<0|1|D> text=<str>     (phase 5: the XML declaration parsed exactly, XmlDecl.scanPrologX)
+  XMLD defuse=<0|1|D> enccls=<ok|wrong|multibyte|unknown: oracle for an encoding name outside the table> text=<str>     (phase 5: the XML declaration parsed exactly, XmlDecl.scanPrologX)
       -> decl=<-|bad|V:ver,E:enc|-,S:y|n|-> gram=<0|1> expat=<0|1> rt=<0|1: spec render of the tree = body>
          cls=<ok|wrong|multibyte|unknown|-> rawenc=<0|1: unusable declared encoding (F19e, fixed)> standalone=<0|1> xml=<..>
 -/
@@ -248,7 +248,12 @@ def answerXmlD (fs : List (String × String)) : String :=
   | some t =>
     let df := flagOf (field fs "defuse") EPV.Gen.C19.defuseXmlDefault
     let cs := t.toList
+    let orc : XmlDecl.EncClass := match field fs "enccls" with
+      | "ok" => .ok | "wrong" => .wrong | "multibyte" => .multibyte | _ => .unknown
     let pt := XmlDecl.scanPrologX cs
+    let intab := match pt.2 with
+      | some tr => (match tr.encoding with | some n => (XmlDecl.tableClass n).isSome | none => false)
+      | none => false
     let head := XmlDecl.declOf cs
     let decl := match head, pt.2 with
       | none, _ => "-"
@@ -263,9 +268,9 @@ def answerXmlD (fs : List (String × String)) : String :=
       | some (body, _), some tr => EPV.GlobalsSpec.XmlDeclGrammar.render tr == body
       | _, _ => false
     let cls := match pt.2 with
-      | some tr => (match tr.encoding with | some n => showCls (XmlDecl.encClass n) | none => "-")
+      | some tr => (match tr.encoding with | some n => showCls (XmlDecl.encClass orc n) | none => "-")
       | none => "-"
-    s!"decl={decl} gram={b01 gram} expat={b01 ex} rt={b01 rt} cls={cls} rawenc={b01 (XmlDecl.rawEncoding cs)} standalone={b01 pt.1.standalone} xml={showX (XmlDecl.parseXmlTextX df t)}"
+    s!"decl={decl} gram={b01 gram} expat={b01 ex} rt={b01 rt} cls={cls} rawenc={b01 (XmlDecl.rawEncoding orc cs)} intable={b01 intab} standalone={b01 pt.1.standalone} xml={showX (XmlDecl.parseXmlTextX orc df t)}"
 
 def showRes (r : Res Unit) : String :=
   let k := match r with
